@@ -22,14 +22,14 @@ def coq_order(i, d):
         z(d["liab"]))
 
 
-def gen_order(rng, sel, even):
+def gen_order(rng, sel, even, hc=0):
     kind = rng.choice(["L", "L", "L", "L", "LINE", "LOC", "MOC"])
     status = rng.choice(["EXECUTABLE", "EXECUTABLE", "EXECUTABLE", "EXECUTION_COMPLETE", "EXECUTION_COMPLETE", "PENDING", "CANCELLING",
                          "UPDATING", "REPLACING", "EXPIRED", "VIOLATION", "NONE"])
     def amt():
         v = rng.choice([0, 0, 200, 500, 1000, 1234, 5, 333, 2550, rng.randrange(1, 20000)])
         return v - v % 2 if even else v
-    d = {"sel": sel, "hc": 0, "side": rng.choice(["BACK", "LAY"]), "kind": kind, "status": status,
+    d = {"sel": sel, "hc": hc, "side": rng.choice(["BACK", "LAY"]), "kind": kind, "status": status,
          "matched": 0, "avg": 0, "rem": 0, "price": 0, "liab": 0}
     if kind in ("L", "LINE"):
         d["matched"] = amt()
@@ -67,27 +67,28 @@ def main():
         even = rng.random() < 0.4
         nsel = rng.randrange(1, 5)
         sels = rng.sample([1, 2, 3, 4, 5], nsel)
+        lines = [0, 1, 2] if rng.random() < 0.25 else [0]       # handicap market: one selection on several lines, each line a runner of its own
         orders = []
         for s in sels:
             for _ in range(rng.choice([0, 1, 1, 2, 3, 4])):
-                orders.append(gen_order(rng, s, even))
+                orders.append(gen_order(rng, s, even, rng.choice(lines)))
         rng.shuffle(orders)
         for o in orders:
             if rng.random() < 0.05:
                 o["other"] = True       # order of another strategy in the same blotter: must not count
-        extra = [gen_order(rng, rng.choice([1, 2, 3, 4, 5, 6]), even) for _ in range(2)]
+        extra = [gen_order(rng, rng.choice([1, 2, 3, 4, 5, 6]), even, rng.choice(lines)) for _ in range(2)]
         mine = [i for i, o in enumerate(orders) if not o.get("other")]
         qs = []
-        for s in set(sels) | {extra[0]["sel"]}:
+        for s, h in sorted({(s, h) for s in sels for h in lines} | {(extra[0]["sel"], extra[0]["hc"])}):
             ex = ["o", rng.choice(mine)] if mine and rng.random() < 0.4 else None
             nw = None
             r = rng.random()
-            cand = [i for i, e in enumerate(extra) if e["sel"] == s]
+            cand = [i for i, e in enumerate(extra) if (e["sel"], e["hc"]) == (s, h)]
             if r < 0.35 and cand:
                 nw = ["x", cand[0]]
-            elif r < 0.5 and ex is not None and orders[ex[1]]["sel"] == s:
+            elif r < 0.5 and ex is not None and (orders[ex[1]]["sel"], orders[ex[1]]["hc"]) == (s, h):
                 nw = ex                       # exclusion == new_order (what REPLACE passes)
-            qs.append({"f": "sel", "sel": s, "ex": ex, "new": nw})
+            qs.append({"f": "sel", "sel": s, "hc": h, "ex": ex, "new": nw})
         for _ in range(2):
             ex = ["o", rng.choice(mine)] if mine and rng.random() < 0.3 else None
             r = rng.random()
@@ -109,7 +110,7 @@ def main():
             return "(Some %s)" % coq_order(oid(r), d)
         for qi, (q, r) in enumerate(zip(c["queries"], rs)):
             if q["f"] == "sel":
-                os_ = [coq_order(i, o) for i, o in mine if selkey(o) == q["sel"] * 10]
+                os_ = [coq_order(i, o) for i, o in mine if selkey(o) == q["sel"] * 10 + q.get("hc", 0)]
                 selrows.append("(%s, %s, %s, %s, %s)" % (cl(os_), copt(oid(q["ex"])), onew(q["new"]), zl(r["six"]), z(r["selexp"])))
                 selmeta.append((ci, qi))
             else:
